@@ -2,6 +2,7 @@ package main
 
 import (
 	"encoding/json"
+	"fmt"
 	"strings"
 	"sync/atomic"
 	"time"
@@ -53,8 +54,8 @@ func registerSeq(id string, mk func(tier string) *seqProp, quick, thorough time.
 }
 
 // registerSeqPlus: a seqx check with an extra (mergex) phase.
-func registerSeqPlus(id string, extra func(ctx *core.Ctx, tier string), mk func(tier string) *seqProp, quick, thorough time.Duration) {
-	registerSeq(id, mk, quick, thorough)
+func registerSeqPlus(id string, extra func(ctx *core.Ctx, tier string), mk func(tier string) []*seqProp, quick, thorough time.Duration) {
+	registerSeqMulti(id, mk, quick, thorough)
 	ck := checks[id]
 	ck.Engine = "seqx+mergex"
 	run, replay := ck.Run, ck.Replay
@@ -121,18 +122,40 @@ func registerSeqMulti(id string, mk func(tier string) []*seqProp, quick, thoroug
 
 func init() {
 	// C01 — RFC 6902 result (v5)
-	registerSeq("C01", func(tier string) *seqProp {
-		p := &seqProp{ID: "C01", Docs: Dq, Opts: optsNeg(defaultOpt), Depth: 2, Alpha: []*AlphaCfg{{InteriorNeg: true}, {}},
+	registerSeqMulti("C01", func(tier string) []*seqProp {
+		first := &AlphaCfg{InteriorNeg: true}
+		p := &seqProp{ID: "C01", Docs: Dq, Opts: optsNeg(defaultOpt), Depth: 2, Alpha: []*AlphaCfg{first, {}},
 			Judge: func(r *seqRun) { judgeResult(r, false) },
 			Rule: "all operation sequences of length <= depth over the alphabet Sigma(D) recomputed from the current reference state " +
 				"(every resolvable pointer + near-misses x 8 patch values x 6 operations), on each curated document, SupportNegativeIndices on/off; " +
 				"a case is one (document, options, sequence); states = distinct (options, reference document) reached"}
 		if tier == "thorough" {
-			p.Depth = 3
-			p.Alpha = []*AlphaCfg{{InteriorNeg: true}, {InteriorNeg: true}, thirdLevel}
+			p.Alpha = []*AlphaCfg{first, first}
+			return []*seqProp{p, deepPhase(p, first, DqCore)}
 		}
-		return p
+		return []*seqProp{p}
 	}, 150*time.Second, 25*time.Minute)
+}
+
+// DqCore: the documents used for depth-3 exploration (one per structural family).
+var DqCore = []string{Dq[0], Dq[1], Dq[2], Dq[3], Dq[6], Dq[7], Dq[12], Dq[13]}
+
+// alphabets of the depth-3 phases: full first operation, reduced second and third
+var (
+	midLevel  = &AlphaCfg{Values: v2, ReplValues: v1n}
+	lastLevel = &AlphaCfg{Values: v1n, ReplValues: v1n, Kinds: kinds("test", "remove", "copy", "move")}
+)
+
+// deepPhase: p's depth-3 companion on DqCore (thorough tier).
+func deepPhase(p *seqProp, first *AlphaCfg, docs []string) *seqProp {
+	d := *p
+	d.Docs = docs
+	d.Depth = 3
+	m, l := *midLevel, *lastLevel
+	m.NoRootAdd, l.NoRootAdd = first.NoRootAdd, first.NoRootAdd
+	d.Alpha = []*AlphaCfg{first, &m, &l}
+	d.Rule = "DEPTH 3 on " + fmt.Sprint(len(docs)) + " core documents: full alphabet for the first operation, {1,null} values for the second, {test, remove, copy, move} for the third; same oracle"
+	return &d
 }
 
 // thirdLevel is the reduced alphabet used at depth >= 3.
@@ -162,16 +185,15 @@ func init() {
 		lits := parseAll([]string{`{"n":1.0,"e":1e400,"z":-0,"big":12345678901234567890123}`, `{"b":2,"a":1,"c":{"z":1.50,"y":2}}`, `{"c":{"y":null,"x":1.0},"d":0.10,"a":1E2}`, `{"z":{"n":-0.0}}`})
 		docs := append(onlyObjs(v2), lits...)
 		runMergeEdges(ctx, "C05", false, docs, append(append([]*rj.Value(nil), v2...), lits...), mergeCfg{ordered: true})
-	}, func(tier string) *seqProp {
+	}, func(tier string) []*seqProp {
 		p := &seqProp{ID: "C05", Docs: Dq, Opts: []r69.Options{defaultOpt}, Depth: 2,
 			Judge: func(r *seqRun) { judgeResult(r, true) },
 			Rule: "as C01 (SupportNegativeIndices on), judged with ORDERED equality: member order must equal the reference's " +
 				"(survivors keep relative order, created members appended in creation order, replace/add-on-existing keep position) and every number literal must be byte-identical; includes the empty patch on every document"}
 		if tier == "thorough" {
-			p.Depth = 3
-			p.Alpha = []*AlphaCfg{{}, {}, thirdLevel}
+			return []*seqProp{p, deepPhase(p, &AlphaCfg{}, append(append([]string(nil), DqCore...), Dq[4], Dq[11]))}
 		}
-		return p
+		return []*seqProp{p}
 	}, 150*time.Second, 25*time.Minute)
 
 	// C08 — failures return nothing and say why
@@ -199,7 +221,7 @@ func init() {
 	}, 150*time.Second, 25*time.Minute)
 
 	// C13 — AllowMissingPathOnRemove
-	registerSeq("C13", func(tier string) *seqProp {
+	registerSeqMulti("C13", func(tier string) []*seqProp {
 		opts := optsNeg(r69.Options{AllowMissing: true, EscapeHTML: true})
 		a := &AlphaCfg{Values: v3, ReplValues: v1n, InteriorNeg: true}
 		a2 := &AlphaCfg{Values: v3, ReplValues: v1n}
@@ -207,10 +229,12 @@ func init() {
 			Rule: "option on x negatives on/off x all sequences <= depth (removes of existing / absent-member / out-of-range / absent-ancestor targets mixed with all other operations); " +
 				"each judged against the reference AND differentially on the real code: Apply(on, P) must equal Apply(off, P minus the removes the reference marks skipped) in bytes or in error"}
 		if tier == "thorough" {
-			p.Depth = 3
-			p.Alpha = []*AlphaCfg{a, a, {Values: v1n, ReplValues: v1n, Kinds: kinds("remove", "move", "add", "test")}}
+			p.Alpha = []*AlphaCfg{{InteriorNeg: true}, a}
+			d := deepPhase(p, a, DqCore)
+			d.Alpha[2] = &AlphaCfg{Values: v1n, ReplValues: v1n, Kinds: kinds("remove", "move", "add", "test")}
+			return []*seqProp{p, d}
 		}
-		return p
+		return []*seqProp{p}
 	}, 150*time.Second, 25*time.Minute)
 
 	// C14 — EnsurePathExistsOnAdd
@@ -235,7 +259,7 @@ func init() {
 	// C15 — well-formed outputs, escaping, indentation (Apply part)
 	registerSeqPlus("C15", func(ctx *core.Ctx, tier string) {
 		runMergeOutputs(ctx, tier)
-	}, func(tier string) *seqProp {
+	}, func(tier string) []*seqProp {
 		opts := []r69.Options{{Neg: true, EscapeHTML: true}, {Neg: true, EscapeHTML: false}}
 		docs := []string{
 			`{"h":"<>&","<k>":{"x":"a<b"},"a":[1,"&"]}`,
@@ -254,14 +278,18 @@ func init() {
 				"every successful output must parse (independent reader), be UTF-8, equal the reference value, obey the escaping clause, equal the independently re-indented Apply output for 3 indent strings, " +
 				"and be byte-identical to the output of the same patch with its (passing) test operations deleted"}
 		if tier == "thorough" {
-			p.Depth = 3
-			p.Alpha = []*AlphaCfg{a, a, {Values: vals[:1], ReplValues: vals[:1], Kinds: kinds("test", "add", "move", "copy")}}
+			d := *p
+			d.Docs = docs[:7]
+			d.Depth = 3
+			d.Alpha = []*AlphaCfg{a, {Values: vals[:2], ReplValues: vals[:1]}, {Values: vals[:1], ReplValues: vals[:1], Kinds: kinds("test", "add", "move", "copy")}}
+			d.Rule = "DEPTH 3 on the first 7 documents with reduced second/third alphabets; same oracle"
+			return []*seqProp{p, &d}
 		}
-		return p
+		return []*seqProp{p}
 	}, 150*time.Second, 25*time.Minute)
 
 	// C18 — legacy Apply
-	registerSeq("C18", func(tier string) *seqProp {
+	registerSeqMulti("C18", func(tier string) []*seqProp {
 		docs := []string{Dq[0], Dq[1], Dq[2], Dq[3], Dq[6], Dq[7], Dq[9], Dq[10], Dq[11],
 			`{"n":1.0,"e":1e400,"z":-0,"big":12345678901234567890123,"s":"plain"}`}
 		a := &AlphaCfg{NoRootAdd: true, InteriorNeg: true}
@@ -270,10 +298,10 @@ func init() {
 				"sequences the reference evaluates successfully must succeed with a structurally equal document (member order ignored, number literals kept); " +
 				"sequences whose first inapplicable operation is a failed test, a remove/move of an absent target or an out-of-range index must return an error and no document; other failures are outside the stated domain"}
 		if tier == "thorough" {
-			p.Depth = 3
-			p.Alpha = []*AlphaCfg{a, a, {Values: thirdLevel.Values, ReplValues: thirdLevel.ReplValues, NoRootAdd: true}}
+			p.Docs = append(p.Docs, Dq[12], Dq[13])
+			return []*seqProp{p, deepPhase(p, a, []string{Dq[0], Dq[1], Dq[2], Dq[3], Dq[6], Dq[7], Dq[10]})}
 		}
-		return p
+		return []*seqProp{p}
 	}, 150*time.Second, 25*time.Minute)
 }
 
@@ -309,8 +337,21 @@ func init() {
 			Alpha: []*AlphaCfg{{Values: vals[:1], ReplValues: vals[:1], Kinds: kinds("copy", "add", "remove"), NoRootAdd: true}, {Kinds: kinds("copy"), NoRootAdd: true}}, Judge: judgeC12Fixed,
 			Rule: "legacy package global AccumulatedCopySizeLimit: every limit 0..N x all sequences <= depth on 2 documents, same oracle (sizes with HTML escaping, which the legacy encoder always applies)"}
 		if tier == "thorough" {
-			perCall.Depth, defaults.Depth, legacy.Depth = 3, 3, 3
+			// depth 3 with per-call limits (the limit window is recomputed per sequence); the package-level
+			// configurations keep depth 2 over all limits 0..64 and get depth 3 for five limits
+			perCall.Depth = 3
 			perCall.Alpha = []*AlphaCfg{a, tail, tail}
+			var few []r69.Options
+			for _, l := range []int64{0, 5, 13, 21, 40} {
+				few = append(few, r69.Options{Neg: true, EscapeHTML: true, Limit: l})
+			}
+			d3, l3 := *defaults, *legacy
+			d3.Opts, l3.Opts = few, few
+			d3.Depth, l3.Depth = 3, 3
+			d3.Alpha = []*AlphaCfg{sa, tail, tail}
+			l3.Alpha = []*AlphaCfg{legacy.Alpha[0], legacy.Alpha[1], legacy.Alpha[1]}
+			d3.Rule, l3.Rule = "v5 package default, DEPTH 3, limits {0,5,13,21,40}", "legacy package global, DEPTH 3, limits {0,5,13,21,40}"
+			return []*seqProp{perCall, defaults, legacy, &d3, &l3}
 		}
 		return []*seqProp{perCall, defaults, legacy}
 	}, 150*time.Second, 25*time.Minute)
